@@ -42,6 +42,11 @@ CONTEXT_VARIANTS = [
     ('ctx-dcount', 'select distinct count a.name, a.id', [['k1', 'ann'], ['k2', 'bob'], ['k1', 'ann']], ['id', 'name'], None, None),
     ('ctx-plain-list', 'select a.name, a.id', [['k1', 'ann'], ['k2', 'bob']], ['id', 'name'], None, None),
     ('ctx-alias-list', 'select a.name as who, a.id', [['k1', 'ann']], ['id', 'name'], None, None),
+    # the same aggregate over native numbers and over numeric strings (what a number handler decides on its first value must not survive)
+    ('ctx-avg-native', 'select a1, AVG(a2), SUM(a2), VARIANCE(a2) group by a1', [['p', 1], ['p', 2], ['q', 5]], None, None, None),
+    ('ctx-avg-str', 'select a1, AVG(a2), SUM(a2), VARIANCE(a2) group by a1', [['p', '1'], ['p', '2'], ['q', '5']], None, None, None),
+    ('ctx-minmax-native', 'select MIN(a2), MAX(a2), MEDIAN(a2)', [['p', 3], ['p', 10]], None, None, None),
+    ('ctx-minmax-str', 'select MIN(a2), MAX(a2), MEDIAN(a2)', [['p', '3'], ['p', '10']], None, None, None),
     ('ctx-update-1', 'update set a.name = a.name + "!"', [['k1', 'ann']], ['id', 'name'], None, None),
     ('ctx-update-2', 'update set a.name = a.name + "!"', [['ann', 'k1']], ['name', 'id'], None, None),
 ]
